@@ -75,6 +75,13 @@ def enum_units(tier, seed):
     sc = {"k": "scope", "n": "sc_k", "b": [{"k": "const", "n": "k_in", "e": L(2), "eager": True}, db(["id", "k_in"])]}
     cases.append({"rom": "low", "files": {}, "ir": [org, sc, {"k": "if", "c": ["id", "sc_k.k_in"], "t": [db(L(1))], "e": [db(L(0))]},
                                                    {"k": "for", "v": "i_0", "lo": L(0), "hi": ["id", "sc_k.k_in"], "b": [db(["id", "i_0"])]}, db(["id", "sc_k.k_in"])]})
+    # a statement that cannot be assembled inside the TAKEN branch is an error of the program, exactly as in the hand-expanded
+    # program (it does not turn the condition into "false")
+    for bad in ({"k": "call", "n": "m_nope_zz", "args": [L(1)]}, {"k": "const", "n": "k_bad", "e": ["id", "k_undefined"], "eager": True},
+                {"k": "for", "v": "i_b", "lo": L(0), "hi": ["id", "k_undefined"], "b": [db(L(7))]}):
+        for has_else in (False, True):
+            cases.append({"rom": "low", "files": {}, "ir": [org, db(L(1)), {"k": "if", "c": L(1), "t": [bad], "e": [db(L(2))] if has_else else None}, db(L(0xEE))]})
+            cases.append({"rom": "low", "files": {}, "ir": [org, {"k": "for", "v": "i_0", "lo": L(1), "hi": L(3), "b": [{"k": "if", "c": ["id", "i_0"], "t": [bad], "e": [db(L(2))] if has_else else None}]}]})
     # conditions and bounds over names defined many levels above (nested one-iteration loops, blocks, scopes): a := constant
     # of the top level and the outermost loop variable stay visible at any depth
     from vlib import twins as _tw
